@@ -644,8 +644,11 @@ def _known_with_local(pid):
     known = _orig_load_known(pid)
     p = os.path.join(pipeline.VERIF, 'known', 'C01.json')
     if pid == ID and os.path.exists(p):
+        mine = json.load(open(p))
+        repaired = {e['id'] for e in mine if e.get('status') == 'fixed'}
+        known = [k for k in known if k['id'] not in repaired]       # repaired since the coordinator's last merge
         have = {k['id'] for k in known}
-        for e in json.load(open(p)):
+        for e in mine:
             if e.get('status') == 'open' and e['id'] not in have:
                 known.append(e)
     return known
